@@ -3,7 +3,7 @@ prop(
     quick=[("native", 16)],
     thorough=[("native", 16), ("asan", 8), ("valgrind", 5)],
     level="exploration",
-    min_evals={"quick": 500_000, "thorough": 8_000_000},
+    min_evals={"quick": 2_000_000, "thorough": 8_000_000},
     rule=(
         "objects are built with the library's own builders under a pool signer from generated, profile-conforming inputs, 16 kinds in rotation "
         "(TA / CA / EE / detached-EE / router certificates, CRL, manifest, ROA (twice), ASPA, CA CSR, identity TA / EE certificates, SignedMessage, "
@@ -19,9 +19,12 @@ prop(
         "with and without rpkiNotify and with a caRepository with / without trailing slash, signed messages of 0..70000 octets. "
         "One evaluation = one oracle decision: decoder accepts (strict), validator accepts at an instant inside the window, re-encoding reproduces the "
         "bytes, and one per accessor-table row compared between the built value and its decoded twin (35 rows for a certificate, 45-50 for a signed "
-        "object incl. its EE certificate). Case signatures: per object one joint coarse field-shape vector (object kind, serial shape class by DER "
+        "object incl. its EE certificate). State across calls: when the first pass agreed, twice per object one of the twins (random) is brought into a state the public API offers — clone, "
+        "re-decoding of its own to_captured(), serde round trip, and for CRLs every &mut method and its container: cache_serials (once, twice, before / after clone, after re-decoding), "
+        "CrlStore::push with and without enable_serial_caching followed by get — and every row is evaluated, in random order, on the value in that state and then again on the value it was derived from; "
+        "each answer must equal the one the pristine pair agreed on (one evaluation per row and phase). CRL revocation lookups without and with the serial cache are additionally compared with the builder's entry list (observation input_echo_mismatch). Case signatures: per object one joint coarse field-shape vector (object kind, serial shape class by DER "
         "INTEGER form, ASN.1 time type of both validity ends, name default / custom, missing / inherit / blocks per family or list-size classes, "
-        "API path) plus one fine class per field (kind, field, class: e.g. serial 2^159-1, window utc/gen with evaluation at not_after, v6 shape "
+        "API path), one class per (kind, state, twin it was applied to), plus one fine class per field (kind, field, class: e.g. serial 2^159-1, window utc/gen with evaluation at not_after, v6 shape "
         "'few+0+max', ROA max-length mix, CRL entry serial classes); distinct_nontrivial counts those classes, every object is non-trivial (it is "
         "built, decoded, validated and compared)."
     ),
@@ -41,7 +44,7 @@ prop(
         "Runtime monitoring of the real builders, decoders and validators over generated builder inputs (quick 32 000 objects, thorough 480 000, "
         "16 object kinds), with three oracles per object: acceptance by the library's own strict decoder and validator inside the validity window, "
         "byte-identical re-encoding, and a hand-written table of every public accessor / iterator / nested encoder of the type evaluated on the built "
-        "value and on its decoded twin under catch_unwind and compared row by row. ASan repeats 24 000 objects, valgrind memcheck 80 objects (every kind five times) including "
+        "value and on its decoded twin under catch_unwind and compared row by row, then again with one twin cloned / re-decoded / serde-round-tripped / (CRL) serial-cached or stored in a caching CrlStore, before and after. ASan repeats 24 000 objects, valgrind memcheck 80 objects (every kind five times) including "
         "the aws-lc signing and verification paths. This is the level the property calls for: it quantifies over builder inputs, and both the "
         "'accepted by its own decoder' and the 'same answers' parts are decidable per execution."
     ),
